@@ -50,16 +50,19 @@ pub fn init(verbose: bool) {
     utils::set_panic_hook();
 }
 
+#[cfg(not(feature = "beff_verif"))]
 #[wasm_bindgen]
 extern "C" {
     fn resolve_import(current_file: &str, specifier: &str) -> Option<String>;
 }
 
+#[cfg(not(feature = "beff_verif"))]
 #[wasm_bindgen]
 extern "C" {
     fn read_file_content(file_name: &str) -> Option<String>;
 }
 
+#[cfg(not(feature = "beff_verif"))]
 #[wasm_bindgen]
 extern "C" {
     fn emit_diagnostic(diag: JsValue);
@@ -143,6 +146,7 @@ fn run_extraction(entry: EntryPoints) -> ParserExtractResult {
         })
     })
 }
+#[cfg(not(feature = "beff_verif"))]
 fn print_errors(errors: &[DiagnosticInformation]) {
     let v = WasmDiagnostic::from_diagnostics(errors);
     let v = serde_json::to_string(&v).expect("should be able to serialize diagnostics");
@@ -175,4 +179,105 @@ fn update_file_content_inner(file_name: &str, content: &str) {
             b.files.insert(file_name, f);
         })
     }
+}
+
+// ---------------------------------------------------------------------------
+// Verification hook (cargo feature `beff_verif`, off by default).
+// Replaces the JavaScript host imports by an injectable, thread-local native
+// host and exposes String-returning entry points over the same `*_inner`
+// functions, so that the watch-mode session state (BUNDLER) can be driven
+// from a native test harness.
+// ---------------------------------------------------------------------------
+#[cfg(feature = "beff_verif")]
+pub mod verif_host {
+    use std::cell::RefCell;
+    use std::collections::BTreeMap;
+
+    #[derive(Default)]
+    pub struct Host {
+        pub files: BTreeMap<String, String>,
+        pub emitted: Vec<String>,
+        pub reads: Vec<String>,
+    }
+
+    thread_local! {
+        pub static HOST: RefCell<Host> = RefCell::new(Host::default());
+    }
+
+    fn normalize(path: &str) -> String {
+        let mut out: Vec<&str> = vec![];
+        for part in path.split('/') {
+            match part {
+                "" | "." => {}
+                ".." => {
+                    out.pop();
+                }
+                p => out.push(p),
+            }
+        }
+        out.join("/")
+    }
+
+    pub fn resolve(current_file: &str, specifier: &str) -> Option<String> {
+        if !(specifier.starts_with("./") || specifier.starts_with("../")) {
+            return None;
+        }
+        let dir = match current_file.rfind('/') {
+            Some(i) => &current_file[..i],
+            None => "",
+        };
+        let base = normalize(&format!("{}/{}", dir, specifier));
+        HOST.with(|h| {
+            let h = h.borrow();
+            for cand in [
+                base.clone(),
+                format!("{}.ts", base),
+                format!("{}.tsx", base),
+                format!("{}.d.ts", base),
+                format!("{}/index.ts", base),
+            ] {
+                if h.files.contains_key(&cand) {
+                    return Some(cand);
+                }
+            }
+            None
+        })
+    }
+}
+
+#[cfg(feature = "beff_verif")]
+fn resolve_import(current_file: &str, specifier: &str) -> Option<String> {
+    verif_host::resolve(current_file, specifier)
+}
+
+#[cfg(feature = "beff_verif")]
+fn read_file_content(file_name: &str) -> Option<String> {
+    verif_host::HOST.with(|h| {
+        let mut h = h.borrow_mut();
+        h.reads.push(file_name.to_string());
+        h.files.get(file_name).cloned()
+    })
+}
+
+#[cfg(feature = "beff_verif")]
+fn print_errors(errors: &[DiagnosticInformation]) {
+    let v = WasmDiagnostic::from_diagnostics(errors);
+    let v = serde_json::to_string(&v).expect("should be able to serialize diagnostics");
+    verif_host::HOST.with(|h| h.borrow_mut().emitted.push(v));
+}
+
+#[cfg(feature = "beff_verif")]
+pub fn verif_bundle_to_string(parser_entry_point: &str, settings: &str) -> Option<String> {
+    bundle_to_string_inner(parse_entrypoints(parser_entry_point, settings)).ok()
+}
+
+#[cfg(feature = "beff_verif")]
+pub fn verif_bundle_to_diagnostics(parser_entry_point: &str, settings: &str) -> String {
+    let v = bundle_to_diagnostics_inner(parse_entrypoints(parser_entry_point, settings));
+    serde_json::to_string(&v).expect("should be able to serialize diagnostics")
+}
+
+#[cfg(feature = "beff_verif")]
+pub fn verif_update_file_content(file_name: &str, content: &str) {
+    update_file_content_inner(file_name, content)
 }
